@@ -1,1 +1,42 @@
-// driver placeholder
+/// Driver: representation invariant of `Lru` / `LruList` (private fields), read-only.
+pub mod verif {
+    use super::*;
+
+    /// Walks every region list from head and from tail (at most `max` steps each) and checks:
+    /// forward length == backward length == lens[r]; prev/next mirror each other; head.prev and
+    /// tail.next are None; every node's key is in the map with this node pointer and this region;
+    /// map.len() == sum of lens (so the map has no entry without a node).
+    pub fn invariant<K: std::hash::Hash + Eq + Clone>(l: &Lru<K>, max: usize) -> bool {
+        let mut total = 0usize;
+        let mut r = 0usize;
+        while r < 4 {
+            let region = match r { 0 => Region::Window, 1 => Region::Probation, 2 => Region::Protected, _ => Region::Pinned };
+            let mut n = 0usize;
+            let mut cur = l.list.heads[r];
+            let mut prev: Option<NonNull<Node<K>>> = None;
+            while let Some(p) = cur {
+                if n > max { return false; }
+                let node = unsafe { p.as_ref() };
+                if node.prev != prev { return false; }
+                match l.map.get(&node.key) {
+                    Some((mp, mr)) => { if *mp != p || *mr != region { return false; } }
+                    None => return false,
+                }
+                prev = cur;
+                cur = node.next;
+                n += 1;
+            }
+            if l.list.tails[r] != prev { return false; }
+            if l.list.lens[r] != n { return false; }
+            if (l.list.heads[r].is_none()) != (l.list.tails[r].is_none()) { return false; }
+            total += n;
+            r += 1;
+        }
+        l.map.len() == total
+    }
+
+    pub fn region_of<K: std::hash::Hash + Eq + Clone>(l: &Lru<K>, k: &K) -> Option<Region> {
+        l.map.get(k).map(|(_, r)| *r)
+    }
+    pub fn tracked<K: std::hash::Hash + Eq + Clone>(l: &Lru<K>) -> usize { l.map.len() }
+}
